@@ -521,3 +521,576 @@ Qed.
 (* the 2 MiB of the model is the constant translated from chia-traits/src/streamable.rs on this run *)
 Lemma vec_limit_translated : MiB2 = vec_prealloc_limit_bytes.
 Proof. reflexivity. Qed.
+
+(* ================= allocation bound, part a1 ================= *)
+
+(* allocation invariant of one instrumented decoding step:
+   c bytes of memory per consumed byte, d unbacked 2 MiB reservations on failure, at least m bytes consumed *)
+Definition aspec (x : tres) (bs : bytes) (a c d m : N) : Prop :=
+  match x with
+  | TOk v r a' => nlen r + m <= nlen bs /\ a' <= a + c * (nlen bs - nlen r)
+  | TErr a' => a' <= a + c * nlen bs + d * MiB2
+  | TPanic => True
+  end.
+
+Lemma aspec_weaken x bs a c d m c' d' m' :
+  aspec x bs a c d m -> c <= c' -> d <= d' -> m' <= m -> aspec x bs a c' d' m'.
+Proof.
+  destruct x as [v r a'|a'|]; cbn [aspec]; [| |auto].
+  - intros [H1 H2] Hc Hd Hm. split; [lia|]. apply N.le_trans with (a + c * (nlen bs - nlen r)); [exact H2|].
+    apply N.add_le_mono_l. apply N.mul_le_mono_r. exact Hc.
+  - intros H Hc Hd Hm. apply N.le_trans with (a + c * nlen bs + d * MiB2); [exact H|].
+    apply N.add_le_mono; [apply N.add_le_mono_l; apply N.mul_le_mono_r; exact Hc|apply N.mul_le_mono_r; exact Hd].
+Qed.
+
+Lemma aspec_err bs a c d m : aspec (TErr a) bs a c d m.
+Proof. cbn [aspec]. rewrite <- N.add_assoc. apply N.le_add_r. Qed.
+Lemma aspec_ok_same v r bs a c d m : nlen r + m <= nlen bs -> aspec (TOk v r a) bs a c d m.
+Proof. cbn [aspec]. intros H. split; [exact H|apply N.le_add_r]. Qed.
+
+Lemma t_array_cases n bs a k :
+  t_array n bs a k = TErr a \/ exists b r, bs = b ++ r /\ length b = n /\ t_array n bs a k = k b r.
+Proof.
+  unfold t_array. destruct (read_bytes n bs) as [[b r]|] eqn:E; [|left; reflexivity].
+  apply read_bytes_spec in E as [-> Hl]. right. exists b, r. rewrite (proj2 (Nat.eqb_eq _ _) Hl). auto.
+Qed.
+
+Lemma t_u_n_cases n bs a k :
+  t_u_n n bs a k = TErr a \/ exists x r, nlen r + N.of_nat n = nlen bs /\ t_u_n n bs a k = k x r.
+Proof.
+  unfold t_u_n. destruct (t_array_cases n bs a (fun b r => k (be2n b) r)) as [H|(b & r & -> & Hl & H)]; [left; exact H|].
+  right. exists (be2n b), r. split; [rewrite nlen_app; unfold nlen; lia|exact H].
+Qed.
+
+Lemma t_byte_cases bs a k :
+  t_byte bs a k = TErr a \/ exists x r, nlen r + 1 = nlen bs /\ t_byte bs a k = k x r.
+Proof.
+  unfold t_byte. destruct (read_bytes 1 bs) as [[b r]|] eqn:E; [|left; reflexivity].
+  apply read_bytes_spec in E as [-> Hl]. destruct b as [|x [|y b]]; try discriminate.
+  right. exists (b2n x), r. split; [rewrite nlen_app; cbn; lia|reflexivity].
+Qed.
+
+(* results that neither allocate nor consume beyond what was read *)
+Definition simple_res (x : tres) (r : bytes) (a : N) : Prop := x = TErr a \/ exists v, x = TOk v r a.
+
+Lemma aspec_array n bs a k c d :
+  (forall b r, simple_res (k b r) r a) -> aspec (t_array n bs a k) bs a c d (N.of_nat n).
+Proof.
+  intros Hk. destruct (t_array_cases n bs a k) as [->|(b & r & -> & Hl & ->)]; [apply aspec_err|].
+  destruct (Hk b r) as [->|(v & ->)]; [apply aspec_err|]. apply aspec_ok_same. rewrite nlen_app. unfold nlen. lia.
+Qed.
+
+Lemma aspec_u n bs a c d : aspec (t_u n bs a) bs a c d (N.of_nat n).
+Proof. apply aspec_array. intros. right. eauto. Qed.
+Lemma aspec_i n bs a c d : aspec (t_i n bs a) bs a c d (N.of_nat n).
+Proof. apply aspec_array. intros. right. eauto. Qed.
+Lemma aspec_bytesn n bs a c d : aspec (t_bytesn n bs a) bs a c d (N.of_nat n).
+Proof. apply aspec_array. intros. right. eauto. Qed.
+Lemma aspec_g1 O tr bs a c d : aspec (t_g1 O tr bs a) bs a c d 48.
+Proof. apply (aspec_array 48). intros b r. destruct (g1_ok O tr b); [right; eauto|left; reflexivity]. Qed.
+Lemma aspec_g2 O tr bs a c d : aspec (t_g2 O tr bs a) bs a c d 96.
+Proof. apply (aspec_array 96). intros b r. destruct (g2_ok O tr b); [right; eauto|left; reflexivity]. Qed.
+Lemma aspec_sk bs a c d : aspec (t_sk bs a) bs a c d 32.
+Proof. apply (aspec_array 32). intros b r. destruct (sk_ok b); [right; eauto|left; reflexivity]. Qed.
+
+Lemma aspec_bool bs a c d : aspec (t_bool bs a) bs a c d 1.
+Proof.
+  unfold t_bool. destruct (t_byte_cases bs a (fun x r => match x with 0 => TOk (VBool false) r a | 1 => TOk (VBool true) r a | _ => TErr a end))
+    as [->|(x & r & Hl & ->)]; [apply aspec_err|].
+  destruct x as [|[p|p|]]; try apply aspec_err; apply aspec_ok_same; lia.
+Qed.
+
+Lemma aspec_enum ds bs a c d :
+  aspec (t_u_n 1 bs a (fun n r => if existsb (N.eqb n) ds then TOk (VInt (Z.of_N n)) r a else TErr a)) bs a c d 1.
+Proof.
+  destruct (t_u_n_cases 1 bs a (fun n r => if existsb (N.eqb n) ds then TOk (VInt (Z.of_N n)) r a else TErr a))
+    as [->|(x & r & Hl & ->)]; [apply aspec_err|].
+  destruct (existsb (N.eqb x) ds); [apply aspec_ok_same; lia|apply aspec_err].
+Qed.
+
+(* Bytes / String: the copy is as long as what was consumed *)
+Lemma t_lenpref_like bs a (ok : bytes -> bool) :
+  let x := t_u_n 4 bs a (fun n r => match read_bytes (N.to_nat (N.min n (nlen r + 1))) r with
+                                     | None => TErr a
+                                     | Some (b, r') => if ok b then TOk (VBytes b) r' (a + nlen b) else TErr a
+                                     end) in
+  aspec x bs a 1 0 4.
+Proof.
+  cbv zeta.
+  match goal with |- aspec (t_u_n 4 bs a ?k) _ _ _ _ _ => destruct (t_u_n_cases 4 bs a k) as [->|(n & r & Hl & ->)] end; [apply aspec_err|].
+  destruct (read_bytes _ r) as [[b r']|] eqn:E; [|apply aspec_err].
+  apply read_bytes_spec in E as [-> _]. destruct (ok b); [|apply aspec_err].
+  cbn [aspec]. rewrite nlen_app in Hl. split; lia.
+Qed.
+
+Lemma aspec_bytes bs a : aspec (t_bytes bs a) bs a 1 0 4.
+Proof.
+  pose proof (t_lenpref_like bs a (fun _ => true)) as H. cbv zeta in H. unfold t_bytes, t_lenpref.
+  exact H.
+Qed.
+Lemma aspec_str bs a : aspec (t_str bs a) bs a 1 0 4.
+Proof. exact (t_lenpref_like bs a utf8_ok). Qed.
+
+Lemma aspec_pos O tr bs a : aspec (t_pos O tr bs a) bs a 1 0 87.
+Proof.
+  unfold t_pos. destruct (dec_pos O tr bs) as [[v r]|] eqn:E; cbn [aspec]; [|lia].
+  apply dec_pos_sound in E as (Hw & e & He & ->). pose proof (enc_pos_min O tr v e Hw He) as Hm.
+  rewrite nlen_app. split; lia.
+Qed.
+
+(* ================= allocation bound, part a2 ================= *)
+
+(* ---------- arithmetic of chaining two steps ---------- *)
+Lemma comb_ok a a1 a' c1 C x y z :
+  c1 <= C -> z <= y -> y <= x -> a1 <= a + c1 * (x - y) -> a' <= a1 + C * (y - z) -> a' <= a + C * (x - z).
+Proof.
+  intros Hc Hz Hy H1 H2.
+  assert (c1 * (x - y) <= C * (x - y)) by (apply N.mul_le_mono_r; exact Hc).
+  assert (C * (x - z) = C * (x - y) + C * (y - z)) by (rewrite <- N.mul_add_distr_l; f_equal; lia). lia.
+Qed.
+Lemma comb_err a a1 a' c1 C x y E :
+  c1 <= C -> y <= x -> a1 <= a + c1 * (x - y) -> a' <= a1 + C * y + E -> a' <= a + C * x + E.
+Proof.
+  intros Hc Hy H1 H2.
+  assert (c1 * (x - y) <= C * (x - y)) by (apply N.mul_le_mono_r; exact Hc).
+  assert (C * x = C * (x - y) + C * y) by (rewrite <- N.mul_add_distr_l; f_equal; lia). lia.
+Qed.
+Lemma mul_mono_le c x y : x <= y -> c * x <= c * y.
+Proof. apply N.mul_le_mono_l. Qed.
+
+(* ---------- Program ---------- *)
+Lemma aspec_prog O (Hp : prog_len_pos_hyp O) tr bs a : aspec (t_prog O tr bs a) bs a (1 + clvm_per_byte) 0 1.
+Proof.
+  unfold t_prog, clvm_per_byte. destruct (prog_len O tr bs) as [n|] eqn:En.
+  - pose proof (Hp _ _ _ En) as Hn.
+    destruct (N.ltb_spec (nlen bs) n) as [Hlt|Hge].
+    + cbn [aspec]. destruct tr; lia.
+    + destruct (N.leb_spec n (nlen bs)); [|exact Logic.I]. cbn [aspec].
+      assert (Hr : nlen (skipn (N.to_nat n) bs) = nlen bs - n) by (unfold nlen; rewrite skipn_length; lia).
+      rewrite Hr. split; [lia|]. replace (nlen bs - (nlen bs - n)) with n by lia. rewrite N.min_l by lia. destruct tr; lia.
+  - cbn [aspec]. destruct tr; lia.
+Qed.
+
+(* ---------- generator tail ---------- *)
+Lemma dec_prog_shrinks O tr bs v r : dec_prog O tr bs = Some (v, r) -> nlen r <= nlen bs.
+Proof.
+  unfold dec_prog. destruct (prog_len O tr bs) as [n|]; [|discriminate]. destruct (n <=? nlen bs); [|discriminate].
+  intros [= _ <-]. unfold nlen. rewrite skipn_length. lia.
+Qed.
+
+Lemma dec_gentail_shrinks O tr bs v r : dec_gentail O tr bs = Some (v, r) -> nlen r + 1 <= nlen bs.
+Proof.
+  unfold dec_gentail. intros H. inv_as H pfx r1 Ep. apply dec_u1_spec in Ep as [_ ->]. rewrite nlen_cons.
+  destruct (pfx / 2 =? 0).
+  - inv_as H gn r2 Eg. inv_as H n r3 En. apply dec_u_n_spec in En as [_ ->].
+    destruct (n * 4 <=? nlen r3); [|discriminate]. inv_as H refs r4 Er. injection H as _ <-.
+    apply dec_u32s_sound in Er as (_ & _ & e & _ & ->).
+    assert (nlen (n2be 4 n ++ e ++ r4) <= nlen r1).
+    { destruct (N.land pfx 1 =? 1).
+      - inv_as Eg p r' Ep. injection Eg as _ <-. now apply dec_prog_shrinks in Ep.
+      - injection Eg as _ <-. lia. }
+    rewrite !nlen_app in H. lia.
+  - destruct (pfx / 2 =? 1); [|discriminate]. inv_as H buf r2 Eb. injection H as _ <-.
+    destruct (N.land pfx 1 =? 1).
+    + inv_as Eb b r' El. injection Eb as _ <-. apply dec_lenpref_spec in El as [_ ->]. rewrite !nlen_app. lia.
+    + injection Eb as _ <-. lia.
+Qed.
+
+Lemma aspec_gentail O tr bs a : aspec (t_gentail O tr bs a) bs a gentail_fac 1 1.
+Proof.
+  unfold t_gentail. destruct (dec_gentail O tr bs) as [[v r]|] eqn:E; cbn [aspec].
+  - apply dec_gentail_shrinks in E. split; [exact E|lia].
+  - lia.
+Qed.
+
+(* ---------- Option prefix ---------- *)
+Lemma aspec_opt (dec : bytes -> N -> tres) c d m bs a :
+  (forall bs a, aspec (dec bs a) bs a c d m) -> aspec (t_opt dec bs a) bs a c d 1.
+Proof.
+  intros Hd. unfold t_opt.
+  match goal with |- aspec (t_byte bs a ?k) _ _ _ _ _ => destruct (t_byte_cases bs a k) as [->|(x & r & Hl & ->)] end; [apply aspec_err|].
+  destruct x as [|[p|p|]]; try apply aspec_err; [apply aspec_ok_same; lia|].
+  specialize (Hd r a). destruct (dec r a) as [v r' a'|a'|]; cbn [tbind aspec] in *; [| |exact Logic.I].
+  - destruct Hd as [H1 H2]. split; [lia|].
+    apply N.le_trans with (a + c * (nlen r - nlen r')); [exact H2|]. apply N.add_le_mono_l, mul_mono_le. lia.
+  - apply N.le_trans with (a + c * nlen r + d * MiB2); [exact Hd|]. apply N.add_le_mono_r, N.add_le_mono_l, mul_mono_le. lia.
+Qed.
+
+(* ---------- sequences ---------- *)
+Section Seq.
+  Variable dec : ty -> bytes -> N -> tres.
+  Variables cf vd ms : ty -> N.
+  Variables C D : N.
+
+  Definition step_ok (t : ty) : Prop :=
+    (forall bs a, aspec (dec t bs a) bs a (cf t) (vd t) (ms t)) /\ cf t <= C /\ vd t <= D.
+
+  Lemma t_seq_aspec ts : Forall step_ok ts ->
+    forall acc bs a, aspec (t_seq dec ts acc bs a) bs a C D (fold_right (fun t s => ms t + s) 0 ts).
+  Proof.
+    induction 1 as [|t ts (Ht & Hc & Hdd) _ IH]; intros acc bs a; cbn [t_seq fold_right].
+    - apply aspec_ok_same. lia.
+    - specialize (Ht bs a). destruct (dec t bs a) as [v r a1|a1|]; cbn [aspec] in Ht; [| |exact Logic.I].
+      + destruct Ht as [H1 H2]. specialize (IH (v :: acc) r a1).
+        destruct (t_seq dec ts (v :: acc) r a1) as [v' r' a'|a'|]; cbn [aspec] in *; [| |exact Logic.I].
+        * destruct IH as [I1 I2]. split; [lia|]. eapply (comb_ok a a1 a' (cf t) C (nlen bs) (nlen r) (nlen r')); eauto; lia.
+        * eapply (comb_err a a1 a' (cf t) C (nlen bs) (nlen r)); eauto; lia.
+      + apply N.le_trans with (a + cf t * nlen bs + vd t * MiB2); [exact Ht|].
+        apply N.add_le_mono; [apply N.add_le_mono_l, N.mul_le_mono_r; exact Hc|apply N.mul_le_mono_r; exact Hdd].
+  Qed.
+
+  Lemma t_fields_aspec fs : Forall (fun f => step_ok (snd f)) fs ->
+    forall acc bs a, aspec (t_fields dec fs acc bs a) bs a C D (fold_right (fun f s => ms (snd f) + s) 0 fs).
+  Proof.
+    induction 1 as [|f fs (Ht & Hc & Hdd) _ IH]; intros acc bs a; cbn [t_fields fold_right].
+    - apply aspec_ok_same. lia.
+    - specialize (Ht bs a). destruct (dec (snd f) bs a) as [v r a1|a1|]; cbn [aspec] in Ht; [| |exact Logic.I].
+      + destruct Ht as [H1 H2]. destruct (unpack (snd f) v) as [vs|]; [|exact Logic.I].
+        specialize (IH (rev_append vs acc) r a1).
+        destruct (t_fields dec fs (rev_append vs acc) r a1) as [v' r' a'|a'|]; cbn [aspec] in *; [| |exact Logic.I].
+        * destruct IH as [I1 I2]. split; [lia|]. eapply (comb_ok a a1 a' (cf (snd f)) C (nlen bs) (nlen r) (nlen r')); eauto; lia.
+        * eapply (comb_err a a1 a' (cf (snd f)) C (nlen bs) (nlen r)); eauto; lia.
+      + apply N.le_trans with (a + cf (snd f) * nlen bs + vd (snd f) * MiB2); [exact Ht|].
+        apply N.add_le_mono; [apply N.add_le_mono_l, N.mul_le_mono_r; exact Hc|apply N.mul_le_mono_r; exact Hdd].
+  Qed.
+End Seq.
+
+(* [T; N] *)
+Lemma t_rep_aspec dec1 c d m :
+  (forall bs a, aspec (dec1 bs a) bs a c d m) ->
+  forall n acc bs a, aspec (t_rep dec1 n acc bs a) bs a c d (N.of_nat n * m).
+Proof.
+  intros Hd. induction n as [|n IH]; intros acc bs a; cbn [t_rep].
+  - apply aspec_ok_same. lia.
+  - specialize (Hd bs a). destruct (dec1 bs a) as [v r a1|a1|]; cbn [aspec] in Hd; [| |exact Logic.I].
+    + destruct Hd as [H1 H2]. specialize (IH (v :: acc) r a1).
+      destruct (t_rep dec1 n (v :: acc) r a1) as [v' r' a'|a'|]; cbn [aspec] in *; [| |exact Logic.I].
+      * destruct IH as [I1 I2]. split; [lia|]. eapply (comb_ok a a1 a' c c (nlen bs) (nlen r) (nlen r')); eauto; lia.
+      * eapply (comb_err a a1 a' c c (nlen bs) (nlen r)); eauto; lia.
+    + exact Hd.
+Qed.
+
+(* ================= allocation bound, part a3 ================= *)
+
+Lemma grow_cap_facts cap sz : 2 * cap <= grow_cap cap sz /\ cap + 1 <= grow_cap cap sz /\ grow_cap cap sz <= 2 * cap + 8.
+Proof.
+  unfold grow_cap, min_non_zero_cap. destruct (sz =? 1); [lia|]. destruct (sz <=? 1024); lia.
+Qed.
+
+(* slots allocated by RawVec growth during the next n pushes, in terms of the ghost g = slots grown so far *)
+Definition growth_bound (g cap cnt n : N) : N := if cnt + n <=? cap then g else 2 * (2 * (cnt + n) + 8).
+
+Section VecLoop.
+  Variable dec1 : bytes -> N -> tres.
+  Variables c d m sz : N.
+  Hypothesis Hdec : forall bs a, aspec (dec1 bs a) bs a c d m.
+
+  Lemma t_vec_loop_aspec : forall n cap cnt g acc bs a,
+    (sz <> 0 -> cnt <= cap /\ g <= 2 * cap) ->
+    match t_vec_loop dec1 n sz cap cnt acc bs a with
+    | TOk v r a' => nlen r + N.of_nat n * m <= nlen bs /\
+                    a' + g * sz <= a + growth_bound g cap cnt (N.of_nat n) * sz + c * (nlen bs - nlen r)
+    | TErr a' => a' + g * sz <= a + growth_bound g cap cnt (N.of_nat n) * sz + c * nlen bs + d * MiB2
+    | TPanic => True
+    end.
+  Proof.
+    induction n as [|k IH]; intros cap cnt g acc bs a Hinv; cbn [t_vec_loop].
+    - split; [lia|]. unfold growth_bound. rewrite N.sub_diag.
+      destruct (N.eq_dec sz 0) as [->|Hz]; [rewrite !N.mul_0_r; lia|]. destruct (Hinv Hz) as [H1 _].
+      destruct (N.leb_spec (cnt + N.of_nat 0) cap); [rewrite N.mul_0_r; lia|lia].
+    - pose proof (Hdec bs a) as He. destruct (dec1 bs a) as [v r a1|a1|]; cbn [aspec] in He; [| |exact Logic.I].
+      + destruct He as [E1 E2].
+        assert (HS : N.of_nat (S k) = N.of_nat k + 1) by lia.
+        destruct ((sz =? 0) || (cnt <? cap)) eqn:Hb.
+        * (* push without growth *)
+          assert (Hinv' : sz <> 0 -> cnt + 1 <= cap /\ g <= 2 * cap).
+          { intros Hz. destruct (Hinv Hz). destruct (N.eqb_spec sz 0); [contradiction|]. cbn [orb] in Hb. apply N.ltb_lt in Hb. lia. }
+          specialize (IH cap (cnt + 1) g (v :: acc) r a1 Hinv').
+          assert (HX : growth_bound g cap (cnt + 1) (N.of_nat k) = growth_bound g cap cnt (N.of_nat (S k))).
+          { unfold growth_bound. rewrite HS. replace (cnt + 1 + N.of_nat k) with (cnt + (N.of_nat k + 1)) by lia. reflexivity. }
+          rewrite HX in IH. set (XS := growth_bound g cap cnt (N.of_nat (S k)) * sz) in *. set (G := g * sz) in *.
+          destruct (t_vec_loop dec1 k sz cap (cnt + 1) (v :: acc) r a1) as [v' r' a'|a'|]; [| |exact Logic.I].
+          -- destruct IH as [I1 I2]. split; [lia|].
+             apply (comb_ok (a + XS) (a1 + XS) (a' + G) c c (nlen bs) (nlen r) (nlen r')); lia.
+          -- apply (comb_err (a + XS) (a1 + XS) (a' + G) c c (nlen bs) (nlen r) (d * MiB2)); lia.
+        * (* push with growth: cnt = cap *)
+          destruct (N.eqb_spec sz 0) as [|Hz]; [discriminate|]. cbn [orb] in Hb. apply N.ltb_ge in Hb.
+          destruct (Hinv Hz) as [Hc Hg]. assert (cnt = cap) by lia. subst cnt.
+          destruct (grow_cap_facts cap sz) as (F1 & F2 & F3). set (cap' := grow_cap cap sz) in *.
+          assert (Hinv' : sz <> 0 -> cap + 1 <= cap' /\ g + cap' <= 2 * cap') by (intros _; lia).
+          specialize (IH cap' (cap + 1) (g + cap') (v :: acc) r (a1 + cap' * sz) Hinv').
+          assert (HX : growth_bound (g + cap') cap' (cap + 1) (N.of_nat k) <= growth_bound g cap cap (N.of_nat (S k))).
+          { unfold growth_bound. rewrite HS.
+            destruct (N.leb_spec (cap + (N.of_nat k + 1)) cap); [lia|].
+            destruct (N.leb_spec (cap + 1 + N.of_nat k) cap'); lia. }
+          apply (N.mul_le_mono_r _ _ sz) in HX.
+          set (XS := growth_bound g cap cap (N.of_nat (S k)) * sz) in *.
+          set (XS' := growth_bound (g + cap') cap' (cap + 1) (N.of_nat k) * sz) in *.
+          rewrite N.mul_add_distr_r in IH. set (G := g * sz) in *. set (K := cap' * sz) in *.
+          destruct (t_vec_loop dec1 k sz cap' (cap + 1) (v :: acc) r (a1 + K)) as [v' r' a'|a'|]; [| |exact Logic.I].
+          -- destruct IH as [I1 I2]. split; [lia|].
+             apply (comb_ok (a + XS) (a1 + XS) (a' + G) c c (nlen bs) (nlen r) (nlen r')); lia.
+          -- apply (comb_err (a + XS) (a1 + XS) (a' + G) c c (nlen bs) (nlen r) (d * MiB2)); lia.
+      + (* the element fails *)
+        assert (Hg : g * sz <= growth_bound g cap cnt (N.of_nat (S k)) * sz).
+        { destruct (N.eq_dec sz 0) as [->|Hz]; [lia|]. destruct (Hinv Hz). apply N.mul_le_mono_r.
+          unfold growth_bound. destruct (N.leb_spec (cnt + N.of_nat (S k)) cap); lia. }
+        lia.
+  Qed.
+End VecLoop.
+
+(* ================= allocation bound, part a4 ================= *)
+
+(* Vec<T>::parse: reservation + push loop *)
+Lemma aspec_vec dec1 c d m sz bs a :
+  (forall bs a, aspec (dec1 bs a) bs a c d m) -> (1 <= m \/ sz = 0) ->
+  aspec (t_u_n 4 bs a (fun n r =>
+           let cap := vec_cap0 sz n in
+           let a0 := a + cap * sz in
+           let fits := (m =? 0) || (n <=? nlen r) in
+           let n' := if fits then n else nlen r + 1 in
+           match t_vec_loop dec1 (N.to_nat n') sz cap 0 [] r a0 with
+           | TOk v r' a' => if fits then TOk v r' a' else TErr a'
+           | other => other
+           end)) bs a (7 * sz + c) (1 + d) 4.
+Proof.
+  intros Hdec Hside.
+  match goal with |- aspec (t_u_n 4 bs a ?k) _ _ _ _ _ => destruct (t_u_n_cases 4 bs a k) as [->|(n & r0 & Hl & ->)] end; [apply aspec_err|].
+  cbv zeta. set (cap0 := vec_cap0 sz n). set (fits := (m =? 0) || (n <=? nlen r0)). set (n' := if fits then n else nlen r0 + 1).
+  destruct (vec_prealloc_bounded sz n) as [Hcap1 Hcap2]. fold cap0 in Hcap1, Hcap2.
+  pose proof (t_vec_loop_aspec dec1 c d m sz Hdec (N.to_nat n') cap0 0 0 [] r0 (a + cap0 * sz)) as HL.
+  rewrite N2Nat.id in HL. specialize (HL ltac:(intros _; lia)).
+  assert (HX : growth_bound 0 cap0 0 n' <= (if n' <=? cap0 then 0 else 4 * n' + 16)).
+  { unfold growth_bound. rewrite N.add_0_l. destruct (n' <=? cap0); lia. }
+  apply (N.mul_le_mono_r _ _ sz) in HX.
+  set (XS := growth_bound 0 cap0 0 n' * sz) in *.
+  (* facts about the iteration count when elements occupy memory *)
+  assert (Hcount : sz <> 0 -> n' <= nlen r0 + 1 /\ (fits = true -> n <= nlen r0)).
+  { intros Hz. destruct Hside as [Hm|]; [|contradiction]. unfold n', fits.
+    destruct (N.eqb_spec m 0); [lia|]. cbn [orb]. destruct (N.leb_spec n (nlen r0)); split; try lia; discriminate. }
+  destruct (N.eq_dec sz 0) as [Hz|Hz].
+  - (* zero-sized elements: nothing is allocated for the buffer *)
+    subst sz. subst XS.
+    destruct (t_vec_loop dec1 (N.to_nat n') 0 cap0 0 [] r0 (a + cap0 * 0)) as [v r a'|a'|]; [| |exact Logic.I].
+    + destruct HL as [L1 L2]. rewrite !N.mul_0_r, !N.add_0_r in L2. destruct fits; cbn [aspec].
+      * split; [lia|]. rewrite N.mul_0_r, N.add_0_l. apply N.le_trans with (a + c * (nlen r0 - nlen r)); [lia|].
+        apply N.add_le_mono_l, mul_mono_le. lia.
+      * rewrite N.mul_0_r, N.add_0_l. assert (c * (nlen r0 - nlen r) <= c * nlen bs) by (apply mul_mono_le; lia). lia.
+    + rewrite !N.mul_0_r, !N.add_0_r in HL. cbn [aspec]. rewrite N.mul_0_r, N.add_0_l.
+      assert (c * nlen r0 <= c * nlen bs) by (apply mul_mono_le; lia).
+      assert (d * MiB2 <= (1 + d) * MiB2) by (apply N.mul_le_mono_r; lia). lia.
+  - destruct (Hcount Hz) as [Hn' Hfit]. destruct Hside as [Hm|]; [|contradiction].
+    assert (Herr : forall a' rest, a' <= a + cap0 * sz + XS + c * rest + d * MiB2 -> rest <= nlen r0 ->
+                                   a' <= a + (7 * sz + c) * nlen bs + (1 + d) * MiB2).
+    { intros a' rest Ha Hr.
+      assert (c * rest <= c * nlen r0) by (apply mul_mono_le; exact Hr).
+      rewrite N.mul_add_distr_r, (N.mul_add_distr_r 1 d MiB2), N.mul_1_l.
+      assert (Hbs : nlen bs = nlen r0 + 4) by lia. rewrite Hbs, N.mul_add_distr_l.
+      destruct (N.leb_spec n' cap0).
+      - rewrite N.mul_0_l in HX. lia.
+      - assert (cap0 * sz + (4 * n' + 16) * sz <= 7 * sz * (nlen r0 + 4)).
+        { rewrite <- N.mul_add_distr_r. rewrite (N.mul_comm (7 * sz)), N.mul_assoc. apply N.mul_le_mono_r. lia. }
+        lia. }
+    destruct (t_vec_loop dec1 (N.to_nat n') sz cap0 0 [] r0 (a + cap0 * sz)) as [v r a'|a'|]; [| |exact Logic.I].
+    + destruct HL as [L1 L2]. rewrite N.mul_0_l, N.add_0_r in L2. destruct fits eqn:Ef; cbn [aspec].
+      * specialize (Hfit eq_refl). unfold n' in *. try rewrite Ef in *.
+        split; [lia|].
+        assert (Hq : n <= nlen r0 - nlen r) by nia.
+        set (q := nlen r0 - nlen r) in *. replace (nlen bs - nlen r) with (q + 4) by lia.
+        assert (cap0 * sz + XS <= 7 * sz * (q + 4)).
+        { apply N.le_trans with (cap0 * sz + (4 * n + 16) * sz).
+          - destruct (n <=? cap0); [rewrite N.mul_0_l in HX|]; lia.
+          - rewrite <- N.mul_add_distr_r. rewrite (N.mul_comm (7 * sz)), N.mul_assoc. apply N.mul_le_mono_r. lia. }
+        rewrite N.mul_add_distr_r. assert (c * q <= c * (q + 4)) by (apply mul_mono_le; lia). lia.
+      * apply (Herr a' (nlen r0 - nlen r)); lia.
+    + rewrite N.mul_0_l, N.add_0_r in HL. cbn [aspec]. apply (Herr a' (nlen r0)); lia.
+Qed.
+
+(* ================= allocation bound, part a5 ================= *)
+
+Lemma aspec_map_ok x r bs a c d m k (f : value -> value) :
+  aspec x r a c d m -> nlen r + k <= nlen bs ->
+  aspec (tbind x (fun v r' a' => TOk (f v) r' a')) bs a c d k.
+Proof.
+  intros Hx Hk. destruct x as [v r' a'|a'|]; cbn [tbind aspec] in *; [| |exact Logic.I].
+  - destruct Hx as [H1 H2]. split; [lia|].
+    apply N.le_trans with (a + c * (nlen r - nlen r')); [exact H2|]. apply N.add_le_mono_l, mul_mono_le. lia.
+  - apply N.le_trans with (a + c * nlen r + d * MiB2); [exact Hx|]. apply N.add_le_mono_r, N.add_le_mono_l, mul_mono_le. lia.
+Qed.
+
+Section Bound.
+  Variable O : oracles.
+  Hypothesis Hpos : prog_len_pos_hyp O.
+  Variable tr : bool.
+
+  Definition I (t : ty) : Prop :=
+    vec_ok t = true -> forall bs a, aspec (tdecode O tr t bs a) bs a (cfac t) (vdepth t) (min_size t).
+
+  Lemma seq_steps ts : Forall I ts -> all_t vec_ok ts = true ->
+    forall C D, fold_right (fun t acc => N.max (cfac t) acc) 1 ts <= C ->
+                fold_right (fun t acc => N.max (vdepth t) acc) 0 ts <= D ->
+                Forall (step_ok (tdecode O tr) cfac vdepth min_size C D) ts.
+  Proof.
+    induction 1 as [|t ts Ht _ IH]; cbn [all_t fold_right]; intros Hok C D HC HD; [constructor|].
+    apply andb_prop in Hok as [Hk Hr]. constructor.
+    - split; [exact (Ht Hk)|]. lia.
+    - apply IH; [exact Hr|lia|lia].
+  Qed.
+
+  Lemma field_steps fs : Forall (fun f => I (snd f)) fs -> all_f vec_ok fs = true ->
+    forall C D, fold_right (fun f acc => N.max (cfac (snd f)) acc) 1 fs <= C ->
+                fold_right (fun f acc => N.max (vdepth (snd f)) acc) 0 fs <= D ->
+                Forall (fun f => step_ok (tdecode O tr) cfac vdepth min_size C D (snd f)) fs.
+  Proof.
+    induction 1 as [|f fs Ht _ IH]; cbn [all_f fold_right]; intros Hok C D HC HD; [constructor|].
+    apply andb_prop in Hok as [Hk Hr]. constructor.
+    - split; [exact (Ht Hk)|]. lia.
+    - apply IH; [exact Hr|lia|lia].
+  Qed.
+
+  Theorem tdecode_alloc t : I t.
+  Proof.
+    induction t using ty_ind'; intros Hok bs a; cbn [tdecode cfac vdepth min_size]; cbn [vec_ok] in Hok.
+    - apply aspec_u.
+    - apply aspec_i.
+    - apply aspec_bool.
+    - apply aspec_bytesn.
+    - apply aspec_bytes.
+    - apply aspec_str.
+    - (* Opt *) apply (aspec_opt _ _ _ (min_size t)). exact (IHt Hok).
+    - (* Vec *) apply andb_prop in Hok as [Hs Hk]. unfold vec_ratio.
+      apply (aspec_vec (tdecode O tr t) (cfac t) (vdepth t) (min_size t) (mem_size t) bs a (IHt Hk)).
+      apply orb_prop in Hs as [Hs|Hs]; [left; apply N.leb_le; exact Hs|right; apply N.eqb_eq; exact Hs].
+    - (* Tup *) apply (t_seq_aspec (tdecode O tr) cfac vdepth min_size). apply seq_steps; [exact H|exact Hok|lia|lia].
+    - (* Arr *) apply t_rep_aspec. exact (IHt Hok).
+    - (* Enum *) apply aspec_enum.
+    - (* Struct *) apply (t_fields_aspec (tdecode O tr) cfac vdepth min_size). apply field_steps; [exact H|exact Hok|lia|lia].
+    - apply aspec_g1.
+    - apply aspec_g2.
+    - apply aspec_prog. exact Hpos.
+    - apply aspec_sk.
+    - (* Opt2 *)
+      apply andb_prop in Hok as [Hk1 Hk2].
+      match goal with |- aspec (t_u_n 1 bs a ?k) _ _ _ _ _ => destruct (t_u_n_cases 1 bs a k) as [->|(p & r & Hl & ->)] end; [apply aspec_err|].
+      destruct p as [|[[q|q|]|[q|q|]|]]; try apply aspec_err.
+      + apply aspec_ok_same. lia.
+      + (* both present *)
+        pose proof (IHt1 Hk1 r a) as H1. destruct (tdecode O tr t1 r a) as [v r1 a1|a1|]; cbn [tbind aspec] in *; [| |exact Logic.I].
+        * destruct H1 as [L1 L2]. pose proof (IHt2 Hk2 r1 a1) as H2.
+          destruct (tdecode O tr t2 r1 a1) as [w r2 a2|a2|]; cbn [tbind aspec] in *; [| |exact Logic.I].
+          -- destruct H2 as [M1 M2]. split; [lia|].
+             assert (a2 <= a + N.max (cfac t1) (cfac t2) * (nlen r - nlen r2))
+               by (apply (comb_ok a a1 a2 (cfac t1) (N.max (cfac t1) (cfac t2)) (nlen r) (nlen r1) (nlen r2)); try lia;
+                   apply N.le_trans with (a1 + cfac t2 * (nlen r1 - nlen r2)); [exact M2|apply N.add_le_mono_l, N.mul_le_mono_r; lia]).
+             apply N.le_trans with (a + N.max (cfac t1) (cfac t2) * (nlen r - nlen r2)); [assumption|].
+             apply N.add_le_mono_l, mul_mono_le. lia.
+          -- assert (a2 <= a + N.max (cfac t1) (cfac t2) * nlen r + N.max (vdepth t1) (vdepth t2) * MiB2).
+             { apply (comb_err a a1 a2 (cfac t1) (N.max (cfac t1) (cfac t2)) (nlen r) (nlen r1)); try lia.
+               apply N.le_trans with (a1 + cfac t2 * nlen r1 + vdepth t2 * MiB2); [exact H2|].
+               apply N.add_le_mono; [apply N.add_le_mono_l, N.mul_le_mono_r; lia|apply N.mul_le_mono_r; lia]. }
+             apply N.le_trans with (a + N.max (cfac t1) (cfac t2) * nlen r + N.max (vdepth t1) (vdepth t2) * MiB2); [assumption|].
+             apply N.add_le_mono_r, N.add_le_mono_l, mul_mono_le. lia.
+        * apply N.le_trans with (a + cfac t1 * nlen r + vdepth t1 * MiB2); [exact H1|].
+          apply N.add_le_mono; [apply N.add_le_mono_l; apply N.le_trans with (N.max (cfac t1) (cfac t2) * nlen r);
+            [apply N.mul_le_mono_r; lia|apply mul_mono_le; lia]|apply N.mul_le_mono_r; lia].
+      + (* second only *)
+        apply (aspec_weaken _ bs a (cfac t2) (vdepth t2) 1); try lia.
+        apply (aspec_map_ok _ r bs a _ _ (min_size t2) 1 (fun y => VList [VNone; VSome y])); [exact (IHt2 Hk2 r a)|lia].
+      + (* first only *)
+        apply (aspec_weaken _ bs a (cfac t1) (vdepth t1) 1); try lia.
+        apply (aspec_map_ok _ r bs a _ _ (min_size t1) 1 (fun x => VList [VSome x; VNone])); [exact (IHt1 Hk1 r a)|lia].
+    - apply aspec_pos.
+    - apply aspec_gentail.
+  Qed.
+
+  (* the statement of C14: peak allocation (meter + the one transient clvmr scratch reserve) is bounded by
+     alloc_bound t |bs| = (vdepth t + 1) * 2 MiB + cfac t * |bs|, whatever the bytes and the outcome *)
+
+  Theorem alloc_bounded t bs :
+    vec_ok t = true -> meter_of (tdecode O tr t bs 0) + scratch_reserve tr t <= alloc_bound t (nlen bs).
+  Proof.
+    intros Hok. pose proof (tdecode_alloc t Hok bs 0) as H. unfold alloc_bound.
+    assert (Hs : scratch_reserve tr t <= MiB2) by (unfold scratch_reserve, clvm_reserve, MiB2; destruct (negb tr && has_prog t); lia).
+    rewrite N.mul_add_distr_r, N.mul_1_l.
+    destruct (tdecode O tr t bs 0) as [v r a'|a'|]; cbn [aspec meter_of] in *.
+    - destruct H as [_ H]. assert (cfac t * (nlen bs - nlen r) <= cfac t * nlen bs) by (apply mul_mono_le; lia). lia.
+    - lia.
+    - lia.
+  Qed.
+End Bound.
+
+(* ================= allocation bound, part a6 ================= *)
+
+Lemma round_up_0 al : round_up 0 al = 0.
+Proof.
+  unfold round_up. destruct (N.eqb_spec al 0); [reflexivity|].
+  rewrite N.add_0_l. rewrite N.div_small by lia. reflexivity.
+Qed.
+
+Lemma lay_fold_zero_t ts : Forall (fun t => mem_size t = 0) ts ->
+  fold_left (fun acc t => lay acc (mem_size t) (mem_align t)) ts 0 = 0.
+Proof.
+  induction 1 as [|t ts Ht _ IH]; [reflexivity|]. cbn [fold_left]. unfold lay at 2. rewrite Ht, round_up_0. exact IH.
+Qed.
+Lemma lay_fold_zero_f (fs : list (string * ty)) : Forall (fun f => mem_size (snd f) = 0) fs ->
+  fold_left (fun acc f => lay acc (mem_size (snd f)) (mem_align (snd f))) fs 0 = 0.
+Proof.
+  induction 1 as [|t ts Ht _ IH]; [reflexivity|]. cbn [fold_left]. unfold lay at 2. rewrite Ht, round_up_0. exact IH.
+Qed.
+
+(* an element type with an empty encoding occupies no memory: there is nothing a Vec of it could allocate *)
+Lemma min0_mem0 t : min_size t = 0 -> mem_size t = 0.
+Proof.
+  induction t using ty_ind'; cbn [min_size mem_size]; intros Hm; try lia.
+  all: try (apply N.eq_mul_0 in Hm as [Hn|Ha]; [rewrite Hn; lia|rewrite (IHt Ha); lia]).
+  - (* Tup *)
+    assert (Hall : Forall (fun t => mem_size t = 0) ts).
+    { induction H as [|t ts Ht _ IH]; [constructor|]. cbn [fold_right] in Hm. constructor; [apply Ht; lia|apply IH; lia]. }
+    rewrite (lay_fold_zero_t ts Hall). apply round_up_0.
+  - (* Struct *)
+    assert (Hall : Forall (fun f => mem_size (snd f) = 0) fs).
+    { induction H as [|f fs Hf _ IH]; [constructor|]. cbn [fold_right] in Hm. constructor; [apply Hf; lia|apply IH; lia]. }
+    rewrite (lay_fold_zero_f fs Hall). apply round_up_0.
+Qed.
+
+Lemma vec_ok_all t : vec_ok t = true.
+Proof.
+  induction t using ty_ind'; cbn [vec_ok]; try reflexivity; try assumption.
+  - rewrite IHt, andb_true_r. destruct (N.eqb_spec (min_size t) 0) as [E|E].
+    + rewrite (min0_mem0 t E). apply orb_true_r.
+    + replace (1 <=? min_size t) with true by (symmetry; apply N.leb_le; lia). reflexivity.
+  - induction H as [|t ts Ht _ IH]; [reflexivity|]. cbn [all_t]. now rewrite Ht, IH.
+  - induction H as [|f fs Hf _ IH]; [reflexivity|]. cbn [all_f]. now rewrite Hf, IH.
+  - now rewrite IHt1, IHt2.
+Qed.
+
+(* C14, allocation clause, for every type of the universe, every byte string, both modes, any oracle whose CLVM
+   serializations have at least one byte *)
+Theorem alloc_bounded_all O (Hpos : prog_len_pos_hyp O) tr t bs :
+  meter_of (tdecode O tr t bs 0) + scratch_reserve tr t <= alloc_bound t (nlen bs).
+Proof. apply alloc_bounded; [exact Hpos|apply vec_ok_all]. Qed.
+
+(* ---------- what is NOT proportional to the input: the number of elements of a Vec of zero-width elements ---------- *)
+Lemma vec_elems_consume_translated : forallb (fun p => vec_elems_consume (snd p)) stream_types = true.
+Proof. vm_compute. reflexivity. Qed.
+
+Lemma dec_rep_units (f : bytes -> dres) k :
+  f [] = Some (VList [], @nil byte) -> dec_rep f k [] = Some (repeat (VList []) k, []).
+Proof. intros Hf. induction k as [|k IH]; [reflexivity|]. cbn [dec_rep repeat]. rewrite Hf, IH. reflexivity. Qed.
+
+(* four input bytes decode to a vector of n unit values for every n < 2^32 (Rust: Vec<()>; no memory, but n loop
+   iterations): element COUNT and decoding TIME are not bounded by the input length for such a type *)
+Lemma zero_width_vec_unbounded_count O tr n : n < 2 ^ 32 ->
+  decode O tr (Vec (Tup [])) (n2be 4 n) = Some (VList (repeat (VList []) (N.to_nat n)), []).
+Proof.
+  intros Hn. cbn [decode]. rewrite <- (app_nil_r (n2be 4 n)). rewrite dec_u_n_app by (change (pow256 4) with (2 ^ 32); exact Hn).
+  cbn [min_size fold_right]. replace (0 =? 0) with true by reflexivity. cbn [orb]. cbv beta iota. rewrite dec_rep_units by reflexivity. reflexivity.
+Qed.
+
+Theorem alloc_step_invariant O (Hpos : prog_len_pos_hyp O) tr t bs a :
+  match tdecode O tr t bs a with
+  | TOk v r a' => nlen r + min_size t <= nlen bs /\ a' <= a + cfac t * (nlen bs - nlen r)
+  | TErr a' => a' <= a + cfac t * nlen bs + vdepth t * MiB2
+  | TPanic => True
+  end.
+Proof. exact (tdecode_alloc O Hpos tr t (vec_ok_all t) bs a). Qed.
